@@ -89,8 +89,7 @@ def main():
             except Exception:
                 hist = []
         entry = {"tier": a.tier, "detected": detected, "runs": runs, "repo_head": head.strip(), "verif_head": vh.strip()}
-        hist = [h for h in hist if not (h.get("tier") == a.tier and [r["check"] for r in h["runs"]] == [r["check"] for r in runs])]
-        hist.append(entry)
+        hist.append(entry)  # every run is kept: a change that was missed before a check was strengthened stays on record
         json.dump({"id": sid, "property": meta["property"], "detected_by_quick": any(h["detected"] for h in hist if h["tier"] == "quick"),
                    "history": hist}, open(det_path, "w"), indent=1)
         summary.append((sid, detected, [(r["check"], r["exit"], r["classes"][:4]) for r in runs]))
